@@ -174,6 +174,24 @@ def rule_label_ops(ctx):
             r.check(u.op in allowed_m, "%s.%s|%s" % (mo, mf, u.fn.path), "op=" + u.op, "%s in %s" % (u.op, u.fn.path), "forbidden operation on the label map: %s" % u.op, u.site.loc())
 
 
+def _on_success_of_map_remove(b, bb):
+    """block bb runs only when `map.remove(k)` returned Some: on the Some arm of a match on it, or after
+    `map.remove(k).ok_or_else(..)?` / `.ok_or(..)?` (the Continue arm of the `?`)"""
+    for c in conditions(b, bb):
+        if not c.is_discr:
+            continue
+        for o in origins(b, c.place, transparent=()):
+            if o.kind != "call":
+                continue
+            if callee_matches(o.data, r"hash::map::HashMap::remove$") and on_some_arm(c):
+                return True
+            if callee_decl(o.data) == "core::ops::try_trait::Try::branch" and on_none_arm(c):  # ControlFlow::Continue has index 0
+                _, calls, _ = data_deps(b, o.site.node["args"][0])
+                if any(callee_matches(callee_of(x), r"hash::map::HashMap::remove$") for x in calls) and any(callee_decl(callee_of(x)) in ("core::option::Option::ok_or_else", "core::option::Option::ok_or") for x in calls):
+                    return True
+    return False
+
+
 def rule_removed_counter(ctx):
     prog = ctx.prog
     r = ctx.rule(
@@ -193,24 +211,13 @@ def rule_removed_counter(ctx):
     r.check(len(incs) == 1 and incs[0][1] == 1, owner + "." + cnt, "increments=%s" % [i for _, i in incs], "one `+= 1` site", "the removed-labels counter has %d update sites (increments %s)" % (len(incs), [i for _, i in incs]), incs[0][0].site.loc() if incs else None)
     for u, inc in incs:
         b = u.site.body
-        guarded = False
-        for c in conditions(b, u.site.bb):
-            if on_some_arm(c):
-                for o in origins(b, c.place, transparent=()):
-                    if o.kind == "call" and callee_matches(o.data, r"hash::map::HashMap::remove$"):
-                        guarded = True
+        guarded = _on_success_of_map_remove(b, u.site.bb)
         if not guarded and b.kind != "closure" and not any(c.is_discr for c in conditions(b, u.site.bb)):
             # a private helper (`tombstone_slot`) that runs on every call: judge its call sites
             css = prog.callers_of(b)
             okc = bool(css)
             for cs in css:
-                g2 = False
-                for c in conditions(cs.body, cs.bb):
-                    if on_some_arm(c):
-                        for o in origins(cs.body, c.place, transparent=()):
-                            if o.kind == "call" and callee_matches(o.data, r"hash::map::HashMap::remove$"):
-                                g2 = True
-                okc = okc and g2
+                okc = okc and _on_success_of_map_remove(cs.body, cs.bb)
             sigp = prog.sigs.get(("lib", b.path))
             guarded = okc and sigp is not None and sigp["vis"] != "pub"
         r.check(guarded, owner + "." + cnt, "unguarded-increment", "increment is on the Some arm of map.remove", "the removed-labels counter is incremented on a path where nothing was removed", u.site.loc())
@@ -281,6 +288,15 @@ def rule_attack_ops(ctx):
                                     searched = True
                     if searched and b.postdominates(u.site, t.site):
                         paired = u
+                    # `if slot.is_none() { return }  slot = None;  counter += 1`: store and increment run only when the slot was Some
+                    if paired is None and b.postdominates(u.site, t.site):
+                        for c in conditions(b, t.site.bb):
+                            if c.is_discr:
+                                continue
+                            for o in origins(b, c.place, transparent=()):
+                                if o.kind == "call" and ((callee_matches(o.data, r"^core::option::Option::is_none$") and c.is_false()) or (callee_matches(o.data, r"^core::option::Option::is_some$") and c.is_true())):
+                                    if fld in self_fields_read(b, o.site.node["args"][0], through_calls=False) | self_fields_read(b, o.site.node["args"][0]):
+                                        paired = u
         if paired is not None:
             used.add(id(paired))
         r.check(paired is not None, "%s.%s|%s" % (owner, fld, t.fn.path), "unpaired:" + t.op, "tombstoning in %s paired with a guarded counter increment" % t.fn.path, "tombstoning of an attack in %s is not paired with an increment conditional on the slot having been Some (a self-attack is in both index lists: double count)" % t.fn.path, t.site.loc())
@@ -368,6 +384,16 @@ def rule_index_pairing(ctx):
                         _, calls, _ = data_deps(b, c.place)
                         if sum(1 for cs in calls if callee_matches(callee_of(cs), r"ArgumentSet::len$|LabelSet::len$|n_arguments$")) >= 2:
                             guarded = True
+                    # `if self.arguments.get_argument(&label).is_ok() { return }` before the insertion: grows only for a new label
+                    if o.kind == "call" and not c.is_discr:
+                        d0 = callee_decl(o.data)
+                        absent = (d0 in ("core::result::Result::is_ok", "core::option::Option::is_some") and c.is_false()) or (d0 in ("core::result::Result::is_err", "core::option::Option::is_none") and c.is_true())
+                        if absent:
+                            _, calls, _ = data_deps(b, o.site.node["args"][0])
+                            if any(callee_matches(callee_of(cs), r"ArgumentSet::get_argument$|LabelSet::get_label$|HashMap::get$|HashMap::contains_key$") for cs in calls):
+                                guarded = True
+                    if o.kind == "call" and not c.is_discr and callee_matches(o.data, r"HashMap::contains_key$|ArgumentSet::has_argument$|LabelSet::has_label$") and c.is_false():
+                        guarded = True
             r.check(guarded, "%s.%s|%s" % (owner, f, x.fn.path), "unguarded-growth", "index vector %s grows only when the argument count grew" % f, "index vector %s grows even when the inserted label already existed" % f, x.site.loc())
     # per-argument lists of a removed argument are reset; other mutations are push / swap_remove
     allowed = {"init", "alloc::vec::Vec::push", "index_mut>alloc::vec::Vec::push", "index_mut>alloc::vec::Vec::swap_remove", "index_mut>alloc::vec::Vec::remove", "index_mut>store-through", "index_mut>alloc::vec::Vec::retain", "index_mut>core::mem::take", "index_mut>core::mem::replace", "index_mut>alloc::vec::Vec::clear"}
@@ -563,6 +589,11 @@ def error_before_mutation_ok(prog, b, _stack=()):
                                     on_none = True
                     if on_none:
                         continue
+                    # `map.remove(k).ok_or_else(|| err)?`: the error is the None result of this very call turned into an Err
+                    if es.si is None and es.node.get("args"):
+                        _, ecalls, _ = data_deps(b, es.node["args"][0])
+                        if any(cs.bb == ms.bb for cs in ecalls) and any(callee_decl(callee_of(cs)) in ("core::option::Option::ok_or_else", "core::option::Option::ok_or", "anyhow::Context::context", "anyhow::Context::with_context") for cs in ecalls):
+                            continue
                 tgt = prog.body_for_callee(callee, b)
                 if tgt is not None and "core::result::Result<" in tgt.ret_ty:
                     # Err propagated from this very call (`?` on its result), and callee is itself safe
